@@ -125,6 +125,7 @@ func (e *Engine) Solve(dir string, timeoutS int, all bool, par chan struct{}) []
 		o := e.Obls[i]
 		mu.Lock()
 		asserts := append(append([]*smt.Term{}, e.Assumes[:o.NAssume]...), axioms...)
+		asserts = append(asserts, o.Lemmas...)
 		var vals []*smt.Term
 		asserts = append(asserts, e.C.Not(o.Cond))
 		if !o.ExpectSat {
@@ -151,7 +152,8 @@ func (e *Engine) Solve(dir string, timeoutS int, all bool, par chan struct{}) []
 				la = append(la, a)
 			}
 			if dropped {
-				la = append(append(la, axioms...), e.C.Not(o.Cond))
+				la = append(append(la, axioms...), o.Lemmas...)
+				la = append(la, e.C.Not(o.Cond))
 				light = e.C.Script(la, extra, nil)
 			}
 		}
